@@ -86,14 +86,26 @@ def run(prog):
     key = "render_integer:sign-column"
     good = False
     if h:
+        # the width of the sign column is `if neg || blank || sign { 1 } else { 0 }` (written inline or bound to a local first), and it is
+        # taken off the padding (saturating_sub, or a guarded `-` whose guard R-ARITH checks)
+        def sign_width(e):
+            e = H.strip_try(e)
+            if H.tag(e) != "if":
+                return False
+            cond = e[1]
+            names = {x[1][1] for x in H.walk(cond) if H.tag(x) == "path" and x[1][0] == "local"}
+            ors = all(x[1] == "||" for x in H.nodes(cond, "binary"))
+            vals = [x[2] for x in H.walk(e[2]) if H.tag(x) == "lit"] + [x[2] for x in H.walk(e[3]) if H.tag(x) == "lit"] if len(e) > 3 and e[3] is not None else []
+            return names == {"neg", "blank", "sign"} and ors and vals == [1, 0]
+        bound = {l[1][1] for l in H.nodes(h["body"], "let") if H.tag(l[1]) == "bind" and l[2] is not None and sign_width(l[2])}
+        is_w = lambda e: sign_width(e) or H.local_name(e) in bound
         for c in H.calls(h["body"], suffix="::saturating_sub"):
             args = H.call_args(c)
-            if H.local_name(args[0]) == "padding" and H.tag(H.strip_try(args[1])) == "if":
-                cond = H.strip_try(args[1])[1]
-                names = {x[1][1] for x in H.walk(cond) if H.tag(x) == "path" and x[1][0] == "local"}
-                ors = all(x[1] == "||" for x in H.nodes(cond, "binary"))
-                if names == {"neg", "blank", "sign"} and ors:
-                    good = True
+            if len(args) == 2 and H.local_name(args[0]) == "padding" and is_w(args[1]):
+                good = True
+        for b2 in H.nodes(h["body"], "binary"):
+            if b2[1] == "-" and H.local_name(b2[2]) == "padding" and is_w(b2[3]):
+                good = True
     obs.append(ok(RULE, key, site(f), "one column is reserved when a sign character is printed: neg || blank || sign") if good else
                bad(RULE, key, site(f) if f else "", "zero padding does not reserve the sign column for exactly neg || blank || sign"))
     # ---- value accounting in format_arr
